@@ -104,7 +104,12 @@ static MPT_STRUCT(buffer) *_mpt_buffer_alloc_detach(MPT_STRUCT(buffer) *ptr, siz
 		/* align size */
 		add = len % size;
 		if (add) {
-			len += size - add;
+			add = size - add;
+			if (len > (SIZE_MAX - add)) {
+				errno = EINVAL;
+				return 0;
+			}
+			len += add;
 		}
 	}
 	/* no modification required */
